@@ -8,12 +8,12 @@ VARIABLE tid
 Tr == Traces[tid]
 
 TInit == /\ tid \in 1..NTraces
-         /\ cfg = [crop |-> Tr.cfg.crop, ocr |-> Tr.cfg.ocr, dec |-> Tr.cfg.dec, filter |-> Tr.cfg.filter]
+         /\ cfg = [layout |-> Tr.cfg.layout, crop |-> Tr.cfg.crop, ocr |-> Tr.cfg.ocr, dec |-> Tr.cfg.dec, filter |-> Tr.cfg.filter]
          /\ page = [i \in Lines |-> [crop |-> "none", logits |-> Tr.page[i].logits, text |-> Tr.page[i].text,
                                       conf |-> Tr.page[i].conf, pass |-> Tr.page[i].pass,
                                       loadedpass |-> Tr.page[i].loadedpass]]
          /\ ids = [i \in Lines |-> i]
-         /\ pc = "crop" /\ outcome = "running"
+         /\ pc = "layout" /\ outcome = "running"
 
 Final == /\ outcome' = Tr.outcome
          /\ (Tr.outcome = "ok") =>
@@ -29,7 +29,7 @@ TNext == /\ UNCHANGED tid
          /\ Next
          /\ (outcome' # "running") => Final
 
-Stage == CASE pc = "crop" -> 0 [] pc = "ocr" -> 1 [] pc = "dec" -> 2 [] pc = "conf" -> 3 [] pc = "filter" -> 4 [] OTHER -> 5
+Stage == CASE pc = "layout" -> 0 [] pc = "crop" -> 0 [] pc = "ocr" -> 1 [] pc = "dec" -> 2 [] pc = "conf" -> 3 [] pc = "filter" -> 4 [] OTHER -> 5
 TAccept == TKMark(tid, Stage, outcome # "running")
 TPost == TKPost
 ASSUME TKReset
